@@ -236,3 +236,6 @@ def replay(args, meta):
     except AssertionError as e:
         return False, 'rate-limiter-livelock', f'{e}; trace={trace}'
     return True, None, 'held'
+
+
+sched.freeze()
